@@ -79,9 +79,12 @@ type opts struct {
 }
 
 func parseOpts(args []string) *opts {
-	o := &opts{tier: "quick", solver: "z3"}
+	o := &opts{tier: "quick", solver: "z3-new"}
 	if t := os.Getenv("VERIF_TIER"); t != "" {
 		o.tier = t
+	}
+	if s := os.Getenv("VERIF_SOLVER"); s != "" {
+		o.solver = s
 	}
 	for i := 0; i < len(args); i++ {
 		switch args[i] {
@@ -459,7 +462,7 @@ func runCheck(args []string) int {
 		exit = 2
 	}
 	for _, m := range inconAll {
-		fmt.Printf("INCONCLUSIVE property=%s reason=%s\n", cc.Property, oneLine(m, 600))
+		fmt.Printf("INCONCLUSIVE property=%s reason=%s\n", cc.Property, oneLine(m, 9000))
 	}
 	for _, r := range results {
 		fmt.Printf("SUMMARY property=%s harness=%s paths=%d instrs=%d queries=%d unsat=%d sat=%d unknown=%d solver_s=%.1f wall_s=%.1f asserts=%d\n",
